@@ -1,30 +1,11 @@
 /-
-  C03 — specification-side definitions: the start-position hypothesis and a concrete sample (a real plan, as parsed
-  from the source the real compiler generated for the sample structure) for the non-vacuity examples.
+  C03 — specification-side definitions: a concrete sample (a real plan, as parsed from the source the real compiler
+  generated for the sample structure) for the non-vacuity examples.
 -/
 import CstructModel.Compiler
 
 namespace Cstruct.Compiler
 open Cstruct
-
-/-- an aligned structure starts at a multiple of its alignment (nothing is required of packed structures) -/
-def AlignedStart (cfg : Cfg) (al : Bool) (fs : Fields) (pos : Nat) : Prop :=
-  al = true → ∀ sz sa offs, structLayout cfg al fs = .ok (sz, sa, offs) → sa ∣ pos
-
-/-- the members of a field list (walked along the layout offsets) that have no bit width, a layout offset and a
-    static size consume exactly that size when their own `_read` is run where the layout puts them -/
-def SubSizesAux (cfg : Cfg) (data : Bytes) (start : Nat) : Fields → List (Option Nat) → Prop
-  | .nil, _ => True
-  | .cons _ _ ty bits rest, offs =>
-    (bits = none → ∀ o n, hdOff offs = some o → ty.size cfg = some n →
-      ∀ ctx v p, read cfg ty ctx data (start + o) = .ok (v, p) → p = start + o + n) ∧
-    SubSizesAux cfg data start rest (offs.drop 1)
-
-/-- static members read through their own `_read` consume exactly their declared size where the layout puts them.
-    This is what the compiler assumes when it emits no seek after a nested structure (it is not a theorem about `read`:
-    an aligned structure nested in a packed one at a misaligned offset pads on the absolute position). -/
-def SubSizes (cfg : Cfg) (al : Bool) (fs : Fields) (data : Bytes) (start : Nat) : Prop :=
-  ∀ sz sa offs, structLayout cfg al fs = .ok (sz, sa, offs) → SubSizesAux cfg data start fs offs
 
 def samplecfg : Cfg := { endian := .little, ptr := .pint 8 false, ptrAlign := 8, consts := [] }
 
@@ -42,7 +23,7 @@ def sampleFields : Fields :=
 /-- the plan `harness/srcplan.py` extracts from the source the real compiler generates for `sampleFields` -/
 def samplePlan : Plan :=
   [.bits "a" 3 .self, .align 1, .bits "b" 4 .self, .bitsReset, .seek 4,
-   .block 4 (some "I") [⟨"c", .data1 0, .init, 4⟩], .seek 8, .sub "s",
+   .block 4 (some "I") [⟨"c", .data1 0, .init, 4⟩], .seek 8, .sub "s", .seek 16,
    .block 7 (some "2H3x") [⟨"d", .dataN 0 2, .initArray, 4⟩, ⟨"e", .buf 4 7, .parse, 3⟩], .alignCls]
 
 def sampleData : Bytes := [0x2d, 0, 0, 0, 1, 2, 3, 4, 9, 0, 0, 0, 5, 6, 7, 8, 0x10, 0, 0x20, 0, 0xff, 0xff, 0xff, 0]
